@@ -728,8 +728,33 @@ fn main() {
     let mut cx = Ctx { root: root.clone(), handles: vec![], results: vec![] };
     let steps = scenario["steps"].as_array().expect("steps");
     let out = std::io::stdout();
+    let from = args.iter().position(|a| a == "--from").map(|i| args[i + 1].parse::<usize>().unwrap()).unwrap_or(0);
+    let upto = args.iter().position(|a| a == "--upto").map(|i| args[i + 1].parse::<usize>().unwrap()).unwrap_or(usize::MAX);
+    // optional LD_PRELOAD shim: armed around the one step that carries "arm": true
+    let arm: Option<extern "C" fn(i32)> = unsafe {
+        let p = libc::dlsym(libc::RTLD_DEFAULT, b"cacache_shim_arm\0".as_ptr() as *const libc::c_char);
+        if p.is_null() { None } else { Some(std::mem::transmute::<*mut libc::c_void, extern "C" fn(i32)>(p)) }
+    };
     for (i, step) in steps.iter().enumerate() {
+        if i < from {
+            cx.results.push(None);
+            continue;
+        }
+        if i > upto {
+            break;
+        }
+        let armed_here = step.get("arm").and_then(|x| x.as_bool()).unwrap_or(false);
+        if armed_here {
+            if let Some(f) = arm {
+                f(1);
+            }
+        }
         let r = catch_unwind(AssertUnwindSafe(|| run_step(&mut cx, step)));
+        if armed_here {
+            if let Some(f) = arm {
+                f(0);
+            }
+        }
         let obs = match r {
             Ok(Ok(Ok(res))) => {
                 let j = json!({"step": i, "outcome": "ok", "value": res_json(&res)});
